@@ -4,7 +4,7 @@ the generated table `Gen.sharedWrites` and by the `-race` differential run), the
 correspondence case, its outcome and the specification.
 
 Footprints, per operation kind (cells: 0 document, 1 routers, 2 `sliceUniqueItemsChecker`, 3 an object-valued
-`default` stored in the document, 10+3p compiled pattern p, 11+3t type info of Go type t, 12+3(64i+j) element j of the
+`default` stored in the document, 4 the process-wide format / body-decoder registries, 10+3p compiled pattern p, 11+3t type info of Go type t, 12+3(64i+j) element j of the
 backing array of `PathItem.Parameters` of path item i — `decodedCap n` of them exist for n declared parameters):
 
   FindRoute (gorillamux / legacy)   read doc, read router
@@ -48,12 +48,15 @@ structure OpM where
   item : Nat := 0                -- the path item the operation belongs to (operations under one path share it)
   itemParams : Nat := 0          -- number of path-level parameters of that path item
   ownParams : Nat := 0           -- number of the operation's own parameters
+  registries : Bool := false     -- reads a process-wide registry: a `format` keyword is reached (SchemaStringFormats /
+                                 -- SchemaNumberFormats / SchemaIntegerFormats), a body is decoded (bodyDecoders)
   deriving DecidableEq, Repr
 
 def docCell : Cell := 0
 def routerCell : Cell := 1
 def uniqCell : Cell := 2
 def dfltCell : Cell := 3
+def regCell : Cell := 4          -- the format / body-decoder registries: written by registration functions only
 def patCell (p : Nat) : Cell := 10 + 3 * p
 def typeCell (t : Nat) : Cell := 11 + 3 * t
 def sliceCell (i j : Nat) : Cell := 12 + 3 * (64 * i + j)
@@ -83,7 +86,9 @@ def opActs (_tid : Nat) (o : OpM) : List Act :=
   -- getTypeInfo: the first published descriptor wins — a fill, for recursive types too
   (if o.kind = .gen then [Act.cacheFill (typeCell o.genType) (o.genType + 1)] else []) ++
   -- an object-valued default is deep-copied into the request value; error texts print the schema: plain reads
-  (if validates o.kind && o.sharedDefault then [Act.read dfltCell] else [])
+  (if validates o.kind && o.sharedDefault then [Act.read dfltCell] else []) ++
+  -- `SchemaStringFormats[format]`, `bodyDecoders[mediaType]`: plain reads of maps that only registration functions write
+  (if validates o.kind && o.registries then [Act.read regCell] else [])
 
 structure CaseM where
   ops : List OpM
@@ -138,7 +143,7 @@ structure Outcome where
   docChanged : Bool
   deriving DecidableEq, Repr
 
-def docCells : List Cell := [docCell, routerCell, uniqCell, dfltCell]
+def docCells : List Cell := [docCell, routerCell, uniqCell, dfltCell, regCell]
 
 def outcomeOf (n : Nat) (tr : Trace) : Outcome :=
   { race := raceInB (events sigma0 tr),
